@@ -613,4 +613,74 @@ def l_int_from_bytes(I, args, kw, node):
     return be_value(I.ctx, s, order)
 
 
-LIB = {struct.pack: l_struct_pack, struct.unpack: l_struct_unpack, int.from_bytes: l_int_from_bytes}
+def l_re_sub(I, args, kw, node):
+    """re.sub(pattern, b"", s) for an end-anchored pattern over a few literal bytes (strip a suffix): the number of bytes
+    removed depends only on the classes of the last few bytes; it is tabulated by running CPython's own re.sub on one
+    representative per class combination, so the anchors' semantics ($ also matches before a final newline) are Python's."""
+    import re, itertools
+    from .methods import concrete
+    from .values import SBytes
+    if concrete(args, kw):
+        return re.sub(*args, **kw)
+    pat, repl, s = args[0], args[1], args[2]
+    if kw or len(args) != 3 or not isinstance(pat, bytes) or repl != b"" or not isinstance(s, SBytes):
+        raise SymError("re.sub: only re.sub(<bytes pattern>, b'', <bytes>) is modelled")
+    if not (pat.endswith(b"$") or pat.endswith(b"\\Z")):
+        raise SymError("re.sub: pattern is not anchored at the end")
+    parsed = re._parser.parse(pat)
+    lits = set()
+
+    def walk(items):
+        for op, av in items:
+            name = str(op)
+            if name == "LITERAL":
+                lits.add(av)
+            elif name == "IN":
+                for o2, a2 in av:
+                    if str(o2) != "LITERAL":
+                        raise SymError("re.sub: character class beyond literals")
+                    lits.add(a2)
+            elif name == "BRANCH":
+                for alt in av[1]:
+                    walk(alt)
+            elif name == "SUBPATTERN":
+                walk(av[3])
+            elif name == "AT":
+                pass
+            else:
+                raise SymError("re.sub: pattern element %s" % name)
+    walk(parsed)
+    _lo, hi = parsed.getwidth()
+    if hi > 3 or len(lits) > 3:
+        raise SymError("re.sub: pattern too wide for the suffix table")
+    lits = sorted(lits)
+    other = next(b for b in range(97, 256) if b not in lits)
+    K = hi + 1
+    cls_reps = lits + [other]
+
+    def removed(tail):
+        out = re.sub(pat, repl, bytes(tail))
+        if not bytes(tail).startswith(out):
+            raise SymError("re.sub: not a suffix strip")
+        return len(tail) - len(out)
+    # short inputs: one case per length; long ones: the last K bytes decide
+    for m in range(K):
+        if I.ctx.branch(L.eq(s.n, m)):
+            r = 0
+            for combo in itertools.product(cls_reps, repeat=m):
+                cond = L.And(*[(L.eq(s.at(k), combo[k]) if combo[k] != other else L.And(*[L.ne(s.at(k), v) for v in lits])) for k in range(m)])
+                r = L.If(cond, removed(combo), r)
+            return SBytes(m - r if not isinstance(r, int) else m - r, s.at, s.elem_range, s.kind)
+    r = 0
+    for combo in itertools.product(cls_reps, repeat=K):
+        if removed((other,) * 2 + combo) != removed(combo):
+            raise SymError("re.sub: strip depends on more than the last %d bytes" % K)
+        cond = L.And(*[(L.eq(s.at(s.n - K + k), combo[k]) if combo[k] != other else L.And(*[L.ne(s.at(s.n - K + k), v) for v in lits])) for k in range(K)])
+        r = L.If(cond, removed(combo), r)
+    out = SBytes(s.n - r, s.at, s.elem_range, s.kind)
+    out.root, out.off = getattr(s, "root", None) or s, getattr(s, "off", 0)
+    return out
+
+
+import re as _re_mod
+LIB = {struct.pack: l_struct_pack, struct.unpack: l_struct_unpack, int.from_bytes: l_int_from_bytes, _re_mod.sub: l_re_sub}
